@@ -41,6 +41,7 @@ import (
 	"pgregory.net/rapid"
 
 	"verif/internal/ev"
+	"verif/wgen"
 )
 
 func TestMain(m *testing.M) { ev.Main(m) }
@@ -628,8 +629,11 @@ func checkPkg(c Case) (msg string, nontrivial bool, classes []string) {
 		return m, false, nil
 	}
 	classes = envClasses("pkg", l, runs, c.Parallel)
+	wgenProgram := len(c.Files) == 1 && c.Files[0].Name == "foo.wuffs" && c.Pkg == "foo"
 	if c.Files[srcIdx[0]].From != "" {
 		classes = append(classes, "kind:std-copy")
+	} else if wgenProgram {
+		classes = append(classes, "kind:wgen-program")
 	} else {
 		classes = append(classes, "kind:generated")
 	}
@@ -645,7 +649,7 @@ func checkPkg(c Case) (msg string, nontrivial bool, classes []string) {
 	}
 	classes = append(classes, "gen:accepted", fmt.Sprintf("files:%d", min(nf, 6)), fmt.Sprintf("decls:%s", bucket(nd)))
 	classes = append(classes, shapeClasses(srcs, rs[0].out, c.Pkg)...)
-	nontrivial = nf >= 2 && nd >= 3
+	nontrivial = (nf >= 2 || wgenProgram) && nd >= 3
 
 	if !c.Tool {
 		return "", nontrivial, classes
@@ -1026,9 +1030,17 @@ func TestPropPkg(t *testing.T) {
 	}
 	rapid.Check(t, func(rt *rapid.T) {
 		var c Case
-		if len(stdNoUse) > 0 && rapid.IntRange(0, 9).Draw(rt, "source") == 0 {
+		switch src := rapid.IntRange(0, 9).Draw(rt, "source"); {
+		case len(stdNoUse) > 0 && src == 0:
 			c = drawStdCopy(rt, stdNoUse)
-		} else {
+		case src <= 3:
+			// a program of the E2 generator (go/wgen): one struct, but every statement and expression shape the other
+			// checks use - coroutines, I/O helpers with several stream arguments, iterate, io_bind/io_limit, labelled
+			// loops, constants - so that output paths of the code generator that declaration-only packages never reach
+			// are compiled repeatedly too (a rejected program must be rejected with the same message every time)
+			pr := wgen.Gen(rt, "foo", &wgen.Options{})
+			c = Case{Pkg: "foo", Files: []FileSpec{{Name: "foo.wuffs", Src: pr.Src}}}
+		default:
 			c = drawGenerated(rt)
 		}
 		c.Which = "pkg"
